@@ -2,8 +2,11 @@
 import ipaddress
 import os
 
+from concurrent.futures import ThreadPoolExecutor
+
 from lib import gN, gbool, hexs, glist, gopt
 from props import c14_ref as ref
+from props import c14_life as life
 
 HEADER = "From CJ Require Import Common.Base C14.Model C14.Run.\n"
 
@@ -380,9 +383,18 @@ def eff_is4(p):
     return ref.net_eff(p)["is4"]
 
 
-def oracle(ctx, c, r):
-    """the property's own statement, evaluated on what the Go code returned"""
+def oracle(ctx, c, r, kp="", case=None, note=""):
+    """the property's own statement, evaluated on what the Go code returned
+    (kp: key prefix naming the lane / entry point, case: the replayable case to report, note: where in a history)"""
     cfg = c["cfg"]
+    _fail = ctx.fail
+
+    class _Ctx:                      # same verdicts, keys prefixed with the lane, the lane's own case attached
+        @staticmethod
+        def fail(key, what, cs):
+            _fail(kp + key, what + note, case if case is not None else cs)
+    if kp or case is not None or note:
+        ctx = _Ctx
     lvc = "libver>=2" if c["op"] != "select" or c["lv"] >= 2 else "libver<2"
     if r["out"] == "panic":
         tot = sum((g["w"] or 0) for g in (cfg or {"groups": []})["groups"] if g["nets"] is not None)
@@ -454,13 +466,29 @@ def run(ctx):
     if rc != 0:
         ctx.broken("examples", "non-vacuity examples (coq/C14/Examples.v) no longer check: " + out[-500:])
     cases, exh, conc = gen_cases(ctx)
-    js = [to_json(c) for c in cases + conc]
+    # lifecycle lanes: the selector as the station / the registrar hold it over loads and reloads (real
+    # NewRegistrationManager / OnReload, NewRegProcessorNoAuth / ReloadSubnets), and histories over the selector's API
+    import glob
+    import json
+    from lib import VERIF
+    replayed = []
+    for f in sorted(glob.glob(os.path.join(VERIF, "corpus", "C14", "*.json"))):
+        replayed += replay_cases(json.load(open(f)))
+    replayed += replay_cases(ctx.replay)
+    lcases = life.gen_cases(ctx, replayed)
+    acases = life.gen_api(ctx, replayed)
+    js = [to_json(c) for c in cases + conc] + [life.api_to_json(c) for c in acases]
     race = ctx.tier == "thorough" and os.environ.get("VERIF_NO_RACE") != "1"
-    rc, out, res = ctx.go_inpkg(".", "pkg/phantoms", {"zz_verif_driver_test.go": "c14/phantoms_driver_test.go"},
-                                "^TestVerifC14Phantoms$", js, race=race, timeout=1500)
+    with ThreadPoolExecutor(max_workers=2) as ex:
+        fut_life = ex.submit(life.go_run, ctx, lcases)
+        rc, out, res = ctx.go_inpkg(".", "pkg/phantoms", {"zz_verif_driver_test.go": "c14/phantoms_driver_test.go"},
+                                    "^TestVerifC14Phantoms$", js, race=race, timeout=1500)
+        life_st, life_rg = fut_life.result()
+    ldefs, lterms, ltcases = life.evaluate(ctx, lcases, life_st, life_rg)
     if res is None or len(res) != len(js):
         ctx.broken("driver", "Go driver did not produce results (rc=%s): %s" % (rc, out[-1200:]))
         return
+    adefs, aterms, atcases = life.api_evaluate(ctx, acases, res[len(cases) + len(conc):])
     if race and "DATA RACE" in out:
         i = out.index("DATA RACE")
         ctx.fail("data-race", "the race detector reports a data race during concurrent selections: " + out[i:i + 900],
@@ -578,6 +606,9 @@ def run(ctx):
                        "select/lv0/err", "select/lv1/err", "select/lv2/err", "selphantom/lv-/ok", "selphantom/lv-/err",
                        "tag:leading-zero/ok", "tag:zero-weight/err", "tag:unknown-gen/err", "tag:exh/ok",
                        "exhaustive-offsets/all-hit", "conc/2", "conc/32", "hist/config-unchanged", "tag:hist-fresh/ok", "tag:multi-step/ok", "multi-list/ok"])
+    ctx.require_kinds(life.REQUIRED + life.API_REQUIRED)
+    life.correspond(ctx, ldefs, lterms, ltcases)
+    life.api_correspond(ctx, adefs, aterms, atcases)
     mm = ctx.coq_mismatches("sel", HEADER, terms, "chk", shard=max(8, (len(terms) + 15) // 16), need_vo=["C14/Run.vo"])
     if mm:
         ctx.cov["mismatches"] += len(mm)
